@@ -140,14 +140,20 @@ func c20DriverCLI(d *fw.D) {
 		dir     string   // working directory of the process
 		fsRoot  string
 		nestDir string // sandbox-relative directory of the nested loader ("" = expressions at top level)
+		// pre: the nested loader loads every location as the LAST element of a
+		// sequence handed to map with load-file as the callback, after this
+		// location (relative to nestDir, a file of another directory)
+		pre string
 	}
 	sub := l.RootRel + "/sub"
 	cfgs := []cfg{
-		{"--root-dir=abs,-e", []string{"run", "--root-dir", rootAbs, "-p", "-e"}, base, rootAbs, ""},
-		{"--root-dir=abs,file-in-sub", []string{"run", "--root-dir", rootAbs, "-p"}, base, rootAbs, sub},
-		{"default-root=cwd,-e", []string{"run", "-p", "-e"}, rootAbs, rootAbs, ""},
-		{"--root-dir=symlink,-e", []string{"run", "--root-dir", l.FSRoots[len(l.FSRoots)-1].Path, "-p", "-e"}, base, l.FSRoots[len(l.FSRoots)-1].Path, ""},
-		{"--root-dir=relative,file-in-root", []string{"run", "--root-dir", l.RootRel, "-p"}, base, rootAbs, l.RootRel},
+		{"--root-dir=abs,-e", []string{"run", "--root-dir", rootAbs, "-p", "-e"}, base, rootAbs, "", ""},
+		{"--root-dir=abs,file-in-sub", []string{"run", "--root-dir", rootAbs, "-p"}, base, rootAbs, sub, ""},
+		{"default-root=cwd,-e", []string{"run", "-p", "-e"}, rootAbs, rootAbs, "", ""},
+		{"--root-dir=symlink,-e", []string{"run", "--root-dir", l.FSRoots[len(l.FSRoots)-1].Path, "-p", "-e"}, base, l.FSRoots[len(l.FSRoots)-1].Path, "", ""},
+		{"--root-dir=relative,file-in-root", []string{"run", "--root-dir", l.RootRel, "-p"}, base, rootAbs, l.RootRel, ""},
+		{"--root-dir=abs,seq-file-in-sub", []string{"run", "--root-dir", rootAbs, "-p"}, base, rootAbs, sub, "deep/c.lisp"},
+		{"default-root=cwd,seq-file-in-root", []string{"run", "-p"}, rootAbs, rootAbs, l.RootRel, "sub/b.lisp"},
 	}
 	run := func(c cfg, args []string) (string, string, error) {
 		ctx, cancel := context.WithTimeout(context.Background(), 2*time.Minute)
@@ -163,6 +169,10 @@ func c20DriverCLI(d *fw.D) {
 	judge := func(c cfg, ld *sandbox.Loader, loc, tok, entry string) {
 		mu.Lock()
 		defer mu.Unlock()
+		ck.keySuffix = ""
+		if c.pre != "" {
+			ck.keySuffix = "@seq:map-list"
+		}
 		lb := &c20Lib{kind: "cli-run", family: "cli-run", spec: c.label, label: "elps " + strings.Join(c.args, " "), isFS: true, fsRoot: c.fsRoot,
 			lib: &lisp.FSLibrary{}}
 		ex := c20Oracle(l, lb, ld, loc)
@@ -215,6 +225,10 @@ func c20DriverCLI(d *fw.D) {
 					var sb strings.Builder
 					sb.WriteString("(list")
 					for _, loc := range part {
+						if c.pre != "" {
+							sb.WriteString(` (ignore-errors (nth (map 'list load-file '("` + c.pre + `" "` + loc + `")) 1))`)
+							continue
+						}
 						sb.WriteString(` (ignore-errors (load-file "` + loc + `"))`)
 					}
 					sb.WriteString(")\n")
@@ -231,6 +245,11 @@ func c20DriverCLI(d *fw.D) {
 					toks = c20TokRe.FindAllString(so, -1)
 					ld = &sandbox.Loader{Label: "cli-file-in-" + filepath.Base(c.nestDir), Spelled: c.nestDir + "/" + name, CtxDirs: []string{c.nestDir}}
 					entry = "elps-run file + nested (load-file)"
+					if c.pre != "" {
+						ld.Label = "cli-seq-file-in-" + filepath.Base(c.nestDir)
+						entry = "elps-run file + nested (map 'list load-file '(" + c.pre + " LOCATION))"
+						d.Count("cli_loads_in_sequence", int64(len(part)))
+					}
 				}
 				if len(toks) != len(part) {
 					d.Inconclusive(fmt.Sprintf("C20 CLI phase: %s printed %d values for %d loads", c.label, len(toks), len(part)))
